@@ -89,7 +89,14 @@ pub fn boundary_len(r: &mut Rng, max: usize) -> usize {
 }
 
 pub fn some_len(r: &mut Rng, max: usize) -> usize {
-    match r.below(10) {
+    match r.below(12) {
+        10 | 11 => {
+            // exact multiples of the structural periods (and +-1)
+            let b = *r.pick(&[256usize, 512, 2048, 4096, 8192]);
+            let k = r.range(1, (max / b).max(1).min(24) as u64) as usize;
+            let n = (b * k + [0usize, 0, 0, 1][r.below(4) as usize]).saturating_sub([0usize, 0, 1, 0][r.below(4) as usize]);
+            n.max(1).min(max.max(1))
+        }
         0 => r.range(1, 3) as usize,
         1..=3 => r.range(1, max.min(300) as u64) as usize,
         4..=7 => boundary_len(r, max),
@@ -148,14 +155,67 @@ pub fn shaped_seq(r: &mut Rng, n: usize, alpha: &[u128], shape: u64) -> Vec<u128
                 v.push(alpha[i]);
             }
         }
-        _ => {
+        6 => {
             // sorted blocks: each symbol in one contiguous block
             for i in 0..n {
                 v.push(alpha[i * a / n]);
             }
         }
+        _ => {
+            // clusters of one symbol whose sizes sit on the sampling periods, separated by
+            // long gaps in which it does not occur (select across empty superblocks / hints)
+            let c = alpha[r.below(a as u64) as usize];
+            let others: Vec<u128> = alpha.iter().copied().filter(|&x| x != c).collect();
+            let filler = |r: &mut Rng| if others.is_empty() { c } else { others[r.below(others.len() as u64) as usize] };
+            while v.len() < n {
+                let base = *r.pick(&[32usize, 64, 256, 512, 1024, 2048, 4096, 8192, 8192, 16384]);
+                let size = (base + [0usize, 0, 1, 2][r.below(4) as usize]).saturating_sub([0usize, 0, 1, 0][r.below(4) as usize]).max(1);
+                let dense = r.chance(1, 2);
+                let mut put = 0;
+                while put < size && v.len() < n {
+                    if dense || r.chance(1, 3) {
+                        v.push(c);
+                        put += 1;
+                    } else {
+                        let f = filler(r);
+                        v.push(f);
+                    }
+                }
+                let gap = *r.pick(&[0usize, 1, 255, 2048, 4096, 5000, 9000, 20000]);
+                for _ in 0..gap {
+                    if v.len() >= n {
+                        break;
+                    }
+                    let f = filler(r);
+                    if f == c {
+                        break;
+                    }
+                    v.push(f);
+                }
+            }
+        }
     }
     v
+}
+
+/// occurrence indexes of `s` that sit next to a long gap (>= 1024 positions without `s`)
+pub fn gap_ks(v: &[u128], s: u128) -> Vec<usize> {
+    let mut out = vec![];
+    let mut last: Option<usize> = None;
+    let mut k = 0usize;
+    for (i, &x) in v.iter().enumerate() {
+        if x == s {
+            if let Some(l) = last {
+                if i - l >= 1024 && out.len() < 12 {
+                    out.push(k - 1);
+                    out.push(k);
+                }
+            }
+            last = Some(i);
+            k += 1;
+        }
+    }
+    out
 }
 
 /// alphabet (set of symbol values, first element is not necessarily smallest) for a type
@@ -324,11 +384,12 @@ pub fn tree_queries(r: &mut Rng, c: &mut Case, v: &[u128], bits: u32, budget: us
                 for &s in &syms {
                     let cnt = count(v, s);
                     let mut ks: Vec<usize> = vec![0, 1, cnt.saturating_sub(1), cnt, cnt + 1, usize::MAX, usize::MAX - 1, cnt / 2];
-                    for m in [8192usize, 16384] {
-                        if cnt > m {
-                            ks.extend([m - 1, m, m + 1]);
+                    for m in [8192usize, 16384, 24576] {
+                        if cnt >= m {
+                            ks.extend([m - 2, m - 1, m, m + 1]);
                         }
                     }
+                    ks.extend(gap_ks(v, s));
                     if cnt > 0 {
                         for _ in 0..3 {
                             ks.push(r.below(cnt as u64) as usize);
@@ -383,7 +444,7 @@ pub fn tree_case(r: &mut Rng, o: &TreeOpts) -> Case {
         alpha.sort();
         alpha.dedup();
     }
-    let shape = r.below(7);
+    let shape = r.below(9);
     let v = if n == 0 { vec![] } else { shaped_seq(r, n, &alpha, shape) };
     let distinct = {
         let mut d = v.clone();
@@ -476,6 +537,31 @@ pub fn shaped_bits(r: &mut Rng, n: usize, shape: u64) -> Vec<usize> {
                 bit = !bit;
             }
         }
+        7 | 8 => {
+            // clusters of ones (shape 7) or of zeros (shape 8) sized on the hint periods,
+            // separated by long gaps
+            let mut member = vec![false; n];
+            let mut i = 0usize;
+            while i < n {
+                let base = *r.pick(&[32usize, 64, 512, 1024, 1024, 2048, 4096, 8192, 8192, 16384]);
+                let size = (base + [0usize, 0, 1, 2][r.below(4) as usize]).saturating_sub([0usize, 0, 1, 0][r.below(4) as usize]).max(1);
+                let dense = r.chance(1, 2);
+                let mut put = 0;
+                while put < size && i < n {
+                    if dense || r.chance(1, 3) {
+                        member[i] = true;
+                        put += 1;
+                    }
+                    i += 1;
+                }
+                i += *r.pick(&[0usize, 1, 63, 512, 4096, 5000, 9000, 33000, 70000]);
+            }
+            for (i, &m) in member.iter().enumerate() {
+                if m == (shape == 7) {
+                    ps.push(i);
+                }
+            }
+        }
         _ => {
             // a few isolated ones / zeros
             let k = r.range(1, 4);
@@ -545,6 +631,31 @@ pub fn bits_queries(r: &mut Rng, c: &mut Case, slot: usize, n: usize, ones: &[us
                         ks.push(r.below(cnt as u64) as usize);
                     }
                 }
+                {
+                    // occurrences adjacent to long gaps
+                    let want_one = op.starts_with("select1");
+                    let mut k = 0usize;
+                    let mut last: Option<usize> = None;
+                    let mut added = 0;
+                    let mut oi = 0usize;
+                    for i in 0..n {
+                        let is_one = oi < ones.len() && ones[oi] == i;
+                        if is_one {
+                            oi += 1;
+                        }
+                        if is_one == want_one {
+                            if let Some(l) = last {
+                                if i - l >= 512 && added < 16 {
+                                    ks.push(k - 1);
+                                    ks.push(k);
+                                    added += 1;
+                                }
+                            }
+                            last = Some(i);
+                            k += 1;
+                        }
+                    }
+                }
                 ks.sort();
                 ks.dedup();
                 for k in ks {
@@ -563,7 +674,7 @@ pub fn bits_case(r: &mut Rng, structure: &str, max_len: usize) -> (Case, usize, 
     let mut c = Case::new(structure);
     let empty = r.chance(1, 25);
     let n = if empty { 0 } else { some_len(r, max_len) };
-    let shape = r.below(7);
+    let shape = r.below(10);
     let ones = if n == 0 { vec![] } else { shaped_bits(r, n, shape) };
     c.tag(format!("struct={}", structure));
     c.tag(format!("shape={}", shape));
